@@ -292,6 +292,20 @@ def run(res, tier, seed):
                            "replay": {k: r.get(k) for k in ("prog", "prefix", "follow", "hi", "lo")}, "original": r.get("orig"), "restored": r.get("rest"),
                            "replay_cmd": "echo '<replay json>' | harness c09-replay", "known_finding_key": KF_ALIAS})
             found += 1
+    # tree unfolding: genuine, recorded finding (the JSON text of a DAG is exponential in the work that built it)
+    tr, _ = common.run_harness(["c09-tree"], timeout=300)
+    trows = tr[0]["rows"]
+    res.cov["tree_unfolding_demonstration"] = trows
+    grows = all(b["json_bytes"] >= 8 * a["json_bytes"] for a, b in zip(trows, trows[1:])) and all(b["ops"] - a["ops"] <= 40 for a, b in zip(trows, trows[1:]))
+    kt = [k for k in common.known_for("C09") if k.get("key") == "json-of-shared-structure-is-its-tree-unfolding"]
+    if grows:
+        if kt:
+            res.known("key=json-of-shared-structure-is-its-tree-unfolding " +
+                      " ".join(f"steps={r['steps']}:ops={r['ops']}:json_bytes={r['json_bytes']}" for r in trows) + " :: " + kt[0]["what"])
+        else:
+            res.violation({"what": "ToJSON of a value with shared sub-structure is exponential in the operations that built it", "rows": trows,
+                           "replay_cmd": "harness c09-tree"})
+            found += 1
     if broken and not found and not res.violations:
         res.violation({"broken": broken.what, "detail": broken.detail}, no_input=True)
     elif broken:
